@@ -263,3 +263,19 @@ Lemma small_index_complete_refuted_l :
   a_get 3 (tbl (run0 wit_p1 wit4)) = Some [6;0] /\
   search wit_p1 (getv_of (tbl (run0 wit_p1 wit4))) (ix (run0 wit_p1 wit4)) [0;0] 100 64 = SOk [(1, Fin 4)].
 Proof. vm_compute. repeat split. Qed.
+
+(* class 3 (no delete at all): neighbour lists have a fixed capacity (32 at level 0) and a back-link to a
+   full node is silently dropped instead of pruning.  With m = 16 the first 33 nodes are all linked to
+   each other (32 neighbours each, all full); the 34th node links to 32 of them but none links back:
+   it can never be reached, not even by a search for its own vector with width 64 >= 34 nodes *)
+Definition wit_p5 : params := Pm 2 16 100.
+Definition wit5 : list op := [Ins 1 [1;0] 0 false; Ins 2 [2;0] 0 false; Ins 3 [3;0] 0 false; Ins 4 [4;0] 0 false; Ins 5 [5;0] 0 false; Ins 6 [6;0] 0 false; Ins 7 [7;0] 0 false; Ins 8 [8;0] 0 false; Ins 9 [9;0] 0 false; Ins 10 [10;0] 0 false; Ins 11 [11;0] 0 false; Ins 12 [12;0] 0 false; Ins 13 [13;0] 0 false; Ins 14 [14;0] 0 false; Ins 15 [15;0] 0 false; Ins 16 [16;0] 0 false; Ins 17 [17;0] 0 false; Ins 18 [18;0] 0 false; Ins 19 [19;0] 0 false; Ins 20 [20;0] 0 false; Ins 21 [21;0] 0 false; Ins 22 [22;0] 0 false; Ins 23 [23;0] 0 false; Ins 24 [24;0] 0 false; Ins 25 [25;0] 0 false; Ins 26 [26;0] 0 false; Ins 27 [27;0] 0 false; Ins 28 [28;0] 0 false; Ins 29 [29;0] 0 false; Ins 30 [30;0] 0 false; Ins 31 [31;0] 0 false; Ins 32 [32;0] 0 false; Ins 33 [33;0] 0 false; Ins 34 [34;0] 0 false].
+Lemma backlink_dropped_refuted_l :
+  wf_ops wit_p5 w0 wit5 = true /\ class_of (ix (run0 wit_p5 wit5)) = 3 /\ clean wit_p5 w0 wit5 = true /\
+  length (nodes (ix (run0 wit_p5 wit5))) = 34%nat /\
+  a_get 34 (tbl (run0 wit_p5 wit5)) = Some [34;0] /\
+  match search wit_p5 (getv_of (tbl (run0 wit_p5 wit5))) (ix (run0 wit_p5 wit5)) [34;0] 100 64 with
+  | SOk l => length l = 33%nat /\ mem 34 (map fst l) = false
+  | _ => False
+  end.
+Proof. vm_compute. repeat split. Qed.
